@@ -14,12 +14,12 @@ import numpy as np
 from .. import gen, model as M, oracles as O, refmodel as R
 from ..runner import Skip
 
-RULE = ("cases from rng(seed, 5, 0, i): SE(2) (even i) / SE(3) (odd i) trajectory graphs inside the calibrated neighbourhood (3..40 poses, loops, landmarks "
+RULE = ("cases from rng(seed, 5, 0, i): SE(2) (even i) / SE(3) (odd i) trajectory graphs inside the calibrated neighbourhood (3..40 poses, loops, U-turns (relative rotations within 0.02 rad of pi), landmarks "
         "with rotated offsets, dense SPD information cond<=1e3, initial perturbation sigma_t<=0.15 sigma_r<=0.08, noise sigma_t<=0.03 sigma_r<=0.01; every 4th "
         "case noise-free), tol in 10^U(-10,-3), max_iter=50. distinct = spec fingerprint; non-trivial = initial chi2 > 100 x final chi2 or > 1e-6, "
         "with at least 2 complete iterations.")
 REQ = ["eval:chi2-not-increased", "eval:converged-within-50", "eval:newton-decrement-small", "eval:noise-free-ground-truth-recovered", "class:se2", "class:se3", "class:loops",
-       "class:landmarks", "class:noisy"]
+       "class:landmarks", "class:noisy", "class:u_turns(relative rotation ~ pi)"]
 PLAN = {
     "quick": {"cases": 2400, "soft_s": 90, "min_nontrivial": 500, "require": REQ},
     "thorough": {"cases": 24000, "soft_s": 1500, "min_nontrivial": 5000, "require": REQ},
@@ -39,7 +39,10 @@ def run_case(ctx, i, rng):
     mt, mr = (0.0, 0.0) if noise_free else (float(rng.uniform(0.001, 0.03)), float(rng.uniform(0.0005, 0.01)))
     cond = float(10 ** rng.uniform(0, 3))
     tol = float(10 ** rng.uniform(-10, -3))
-    spec = gen.trajectory_graph(rng, k, n, n_loops=n_loops, n_lm=n_lm, meas_t=mt, meas_r=mr, init_t=it, init_r=ir, cond=cond, cross=bool(rng.random() < 0.7))
+    uturn = float(rng.choice([0.0, 0.0, 0.3, 0.6]))
+    if uturn:
+        ctx.count("class:u_turns(relative rotation ~ pi)")
+    spec = gen.trajectory_graph(rng, k, n, n_loops=n_loops, n_lm=n_lm, meas_t=mt, meas_r=mr, init_t=it, init_r=ir, cond=cond, cross=bool(rng.random() < 0.7), uturn=uturn)
     g = M.build(spec)
     case = {"graph": {kk: v for kk, v in spec.items() if kk != "truth"}, "tol": tol}
     chi0_ref = M.ref_graph_chi2(g)
